@@ -175,11 +175,13 @@ def main():
         # group by signature
         groups = {}
         for f in bad:
-            try:
-                sig = mod.signature(job["harness"], job["params"], f)
-            except Exception as e:
-                sig = {"sigerror": repr(e)}
-            f["sig"] = sig
+            sig = f.get("sig")
+            if sig is None:
+                try:
+                    sig = mod.signature(job["harness"], job["params"], f)
+                except Exception as e:
+                    sig = {"sigerror": repr(e)}
+                f["sig"] = sig
             kf0 = match_known(known, prop, sig) if role == "main" else None
             gk = "known:" + kf0["id"] if kf0 else json.dumps(sig, sort_keys=True)
             groups.setdefault(gk, []).append(f)
